@@ -190,3 +190,43 @@ Example discount_rule_applies :
   forallb conf_shape (t_outs t) = true /\ has_witness t = true /\ has_witness (explicitise t) = true /\
   discount_weight t = Z.of_N (weight (explicitise t)).
 Proof. vm_compute. repeat split. Qed.
+
+(* ---------- discounted virtual size ---------- *)
+Theorem discount_vsize_ceil t :
+  (4 * discount_vsize t >= discount_weight t /\ 4 * discount_vsize t < discount_weight t + 4)%Z.
+Proof. unfold discount_vsize. lia. Qed.
+
+Lemma vsize_Z t : Z.of_N (vsize t) = ((Z.of_N (weight t) + 4 - 1) / 4)%Z.
+Proof.
+  unfold vsize, WitnessScaleFactor. rewrite N2Z.inj_div, N2Z.inj_sub by lia. rewrite N2Z.inj_add. reflexivity.
+Qed.
+
+Theorem discount_vsize_eq_when_no_confidential t :
+  forallb (fun o => negb (is_conf_out o)) (t_outs t) = true -> discount_vsize t = Z.of_N (vsize t).
+Proof.
+  intro H. unfold discount_vsize. rewrite (discount_eq_when_no_confidential t H), vsize_Z. reflexivity.
+Qed.
+
+Theorem discount_vsize_rule t :
+  forallb conf_shape (t_outs t) = true ->
+  has_witness t = true -> has_witness (explicitise t) = true ->
+  discount_vsize t = Z.of_N (vsize (explicitise t)).
+Proof.
+  intros Hs HW HW'. unfold discount_vsize. rewrite (discount_rule t Hs HW HW'), vsize_Z. reflexivity.
+Qed.
+
+(* Go divides with truncation towards zero; that is the rounding-up quotient whenever the
+   discounted weight is not below -3, in particular on every transaction the discount rule speaks about *)
+Theorem discount_vsize_go_eq t : (-3 <= discount_weight t)%Z -> discount_vsize_go t = discount_vsize t.
+Proof.
+  intro H. unfold discount_vsize_go, discount_vsize. apply Z.quot_div_nonneg; lia.
+Qed.
+
+Theorem discount_vsize_go_rule t :
+  forallb conf_shape (t_outs t) = true ->
+  has_witness t = true -> has_witness (explicitise t) = true ->
+  discount_vsize_go t = Z.of_N (vsize (explicitise t)).
+Proof.
+  intros Hs HW HW'. rewrite discount_vsize_go_eq; [apply discount_vsize_rule; assumption|].
+  rewrite (discount_rule t Hs HW HW'). lia.
+Qed.
